@@ -1,7 +1,7 @@
 (* Properties/C09.v — repetition counts are exact.
    REPEAT_K is regenerated from parser/src/grammar_builder.rs on every run; the
    theorems hold for every K >= 2, the side condition is re-checked by computation. *)
-From LLG Require Import Base Params Regex RegexProofs Repeat RepeatProofs.
+From LLG Require Import Base Params Regex RegexProofs Repeat RepeatProofs ObjCount ObjCountProofs.
 Local Open Scope nat_scope.
 
 Lemma K_ok : 2 <= N.to_nat REPEAT_K.
@@ -71,3 +71,18 @@ Example C09_example :
   filter (cs_get (count_set 18 (grepeat (N.to_nat REPEAT_K) GElt 3 (Some 14)))) (seq 0 19)
   = [3; 4; 5; 6; 7; 8; 9; 10; 11; 12; 13; 14].
 Proof. vm_compute. reflexivity. Qed.
+
+(* min/maxProperties (and min/maxItems after prefixItems) next to r required declared members:
+   the counts are reduced by r and handed to bounded_sequence for the additional members
+   (coq/ObjCount.v, from schema.rs mk_object_schema and compiler.rs gen_json_object); exactly the
+   sizes in range are admitted, with additionalProperties closed exactly r ... *)
+Theorem C09_object_sizes_exact : forall r lo hi has_tail c,
+  obj_admits r lo hi has_tail c = true <-> size_ok r lo hi has_tail c.
+Proof. exact obj_admits_exact. Qed.
+Print Assumptions C09_object_sizes_exact.
+
+(* ... and the schema is rejected exactly when no size fits *)
+Theorem C09_object_sizes_rejected_iff_empty : forall r lo hi has_tail,
+  obj_plan r lo hi has_tail = None <-> forall c, ~ size_ok r lo hi has_tail c.
+Proof. exact obj_rejected_iff_empty. Qed.
+Print Assumptions C09_object_sizes_rejected_iff_empty.
